@@ -140,21 +140,26 @@ def find(
     oldest = after > datetime(1980, 1, 1, tzinfo=UTC) and limit is not None
     one = timedelta(seconds=1)
     oneday = timedelta(days=1)
-    while (limit is None or len(entries) < limit) and before > after:
+    # walk the days backwards with a cursor so that the requested upper bound
+    # itself (and its time of day) is what filters the entries of every day
+    cursor = before
+    while (
+        limit is None or len(entries) < limit
+    ) and cursor.date() >= after.date():
         journal = os.path.join(
-            dawgie.context.data_dbs, 'chronicles', str(before.year)
+            dawgie.context.data_dbs, 'chronicles', str(cursor.year)
         )
         if os.path.isdir(journal):
-            journal = os.path.join(journal, f'{before.month:02d}')
+            journal = os.path.join(journal, f'{cursor.month:02d}')
             if os.path.isdir(journal):
-                journal = os.path.join(journal, f'{before.day:02d}')
+                journal = os.path.join(journal, f'{cursor.day:02d}')
                 if os.path.isdir(journal):
                     entries.extend(_load(after, before, journal, succeeded))
-                before = before - oneday
+                cursor = cursor - oneday
             else:
-                before = (
-                    datetime(before.year, before.month, 1, tzinfo=UTC) - one
+                cursor = (
+                    datetime(cursor.year, cursor.month, 1, tzinfo=UTC) - one
                 )
         else:
-            before = datetime(before.year, 1, 1, tzinfo=UTC) - one
+            cursor = datetime(cursor.year, 1, 1, tzinfo=UTC) - one
     return entries[-limit:] if oldest else entries[:limit]
